@@ -15,7 +15,16 @@ def relayouts(rng, src, n=2):
     out.append('\n\n' + src)
     out.append('// héllo wörld\n' + src)
     rng.shuffle(out)
-    return out[:n]
+    out = out[:n]
+    # one token per line / random line breaks between tokens: the line of a finding now identifies the token that
+    # starts the flagged construct, so a detector that anchors a finding at the wrong node shows up
+    try:
+        import sol_lexer as sl
+        out.append(sl.relayout(src, rng, 'lines')[0])
+        out.append(sl.relayout(src, rng, 'crlf')[0])
+    except Exception:
+        pass
+    return out
 
 
 def run_part(rep, ctx):
@@ -32,15 +41,20 @@ def run_part(rep, ctx):
                 progs.append({'gen': 'relayout:' + p['gen'], 'src': s})
 
     def extra(p, r):
-        return ['spec_lines s%d %s %s' % (p['j'], det_common.impl_dets_expr(r), det_common.impl_lines_expr(r))]
+        return ['spec_lines s%d %s %s' % (p['j'], det_common.impl_dets_expr(r), det_common.impl_lines_expr(r)),
+                'spec_anchor_lines p%d s%d %s' % (p['j'], p['j'], det_common.impl_lines_expr(r))]
+    ctx.extra_imports = 'Patterns Patterns2 SpecCases AnchorCases'
     ps, out = det_common.evaluate(ctx, progs, 'c02det-%s-%d' % (ctx.tier, ctx.seed), extra=extra)
     found = False
     n_lines = 0
     n_multi = 0
     bad_s = []
     bad_m = []
+    bad_a = []
     for p, r, dm, lm, ex in out:
         spec_fail = ex[0]
+        if ex[1]:
+            bad_a.append((p, r, [k - 100 for k in ex[1]]))
         for n in DETS:
             v = r['lines'][n]
             if v != 'PANIC':
@@ -59,6 +73,20 @@ def run_part(rep, ctx):
         len(set(p['src'] for p, r, dm, lm, ex in out if any(r['lines'][n] not in ('PANIC', []) for n in DETS)))
     rep.coverage['traces_validated_against_impl'] = rep.coverage.get('traces_validated_against_impl', 0) + \
         len(out) - len(bad_s) - len(bad_m)
+    rep.coverage['detector_level']['anchor_line_failures'] = len(bad_a)
+    seen_a = set()
+    for p, r, f in bad_a:
+        key = tuple(f)
+        if key in seen_a or len(seen_a) >= 2:
+            continue
+        seen_a.add(key)
+        found = True
+        rep.violation('%s reports a line on which no construct matching its documented pattern begins'
+                      % ', '.join(DETS[k] for k in f),
+                      {'kind': 'S', 'input': p['src'], 'original_gen': p['gen'],
+                       'impl_locations': {DETS[k]: r['det'][DETS[k]] for k in f},
+                       'impl_lines': {DETS[k]: r['lines'][DETS[k]] for k in f}, 'n_failing_programs': len(bad_a),
+                       'detector_level': True})
     for p, r, f in bad_s[:2]:
         found = True
         rep.violation('the lines reported by %s are not the lines on which its flagged constructs begin'
